@@ -178,6 +178,14 @@ def catalogue() -> List[Tmpl]:
     vi("import_cyclic", 'proto p\nimport "a.bitproto"\n', False, 2, {"a.bitproto": 'proto a\nimport "main.bitproto"\n'}, "a.bitproto")
     vi("import_self", 'proto p\nimport "main.bitproto"\n', False, 2)
     vi("import_error_inside", 'proto p\nimport "bad.bitproto"\n', False, 3, {"bad.bitproto": "proto bad\nmessage M {\n    uint65 x = 1\n}\n"}, "bad.bitproto")
+    # an imported file is parsed in its own name space: it must not see what the importer (or the importer's
+    # importer) declared before the import line
+    vi("import_child_sees_parent_type", 'proto p\ntype ParentT = uint3\nimport "child.bitproto"\n', False, 3, {"child.bitproto": "proto child\nmessage C {\n    ParentT x = 1\n}\n"}, "child.bitproto")
+    vi("import_child_sees_parent_const", 'proto p\nconst PCAP = 4\nimport "child.bitproto"\n', False, 3, {"child.bitproto": "proto child\nmessage C {\n    byte[PCAP] x = 1\n}\n"}, "child.bitproto")
+    vi("import_grandchild_sees_grandparent", 'proto p\nmessage GP {\n    bool b = 1\n}\nimport "mid.bitproto"\n', False, 3,
+       {"mid.bitproto": 'proto mid\nimport "leaf.bitproto"\n', "leaf.bitproto": "proto leaf\nmessage L {\n    GP g = 1\n}\n"}, "leaf.bitproto")
+    vi("import_child_sees_sibling_import", 'proto p\nimport "lib.bitproto"\nimport "child.bitproto"\n', False, 3, {"lib.bitproto": lib, "child.bitproto": "proto child\nmessage C {\n    lib.Pt x = 1\n}\n"}, "child.bitproto")
+    vi("import_child_own_import_ok", 'proto p\nimport "child.bitproto"\nmessage M {\n    child.C c = 1\n}\n', True, None, {"lib.bitproto": lib, "child.bitproto": 'proto child\nimport "lib.bitproto"\nmessage C {\n    lib.Pt x = 1\n}\n'})
     vi("import_unqualified", 'proto p\nimport "lib.bitproto"\nmessage M {\n    Pt p = 1\n}\n', False, 4, {"lib.bitproto": lib})
     vi("no_proto_name", "message M {}\n", False, None)
     vi("proto_twice_ok_or_not", "proto p\nproto q\n", True)
